@@ -304,6 +304,14 @@ func MainR(F *RFuncs) {
 				for _, c := range MutateConfigs() {
 					runCfg(c, 2*reps)
 				}
+				for _, c := range LongSliceConfigs() {
+					runCfg(c, 4*reps)
+				}
+			}
+			if sys == "joincc" || sys == "joinsc" {
+				for _, c := range RRConfigs(sys) {
+					runCfg(c, reps)
+				}
 			}
 			for i := 0; i < nc; i++ {
 				c := RandomConfig(sys, rng, 4, 5, 2)
